@@ -508,12 +508,135 @@ fn run(sc: &Scenario) -> Result<(u64, u64), String> {
     Ok((polls, y))
 }
 
+// ------------------------------------------------------------------------------------------------
+// hammer mode (C12 under concurrency): a few "hot" children are woken by other threads in tight loops while the
+// owner polls flat out; the "cold" children, whose wakers nobody ever invokes, must keep their single poll.
+// Sound for every interleaving: a poll of a cold child after its first would have no notification behind it.
+
+struct HShared {
+    polls: Vec<AtomicU32>,
+    wakers: Vec<Mutex<Option<Waker>>>,
+    stop: AtomicBool,
+    wakes: std::sync::atomic::AtomicU64,
+}
+struct HFut {
+    id: usize,
+    hot: bool,
+    sh: Arc<HShared>,
+}
+impl Future for HFut {
+    type Output = usize;
+    fn poll(self: Pin<&mut Self>, cx: &mut Context<'_>) -> Poll<usize> {
+        self.sh.polls[self.id].fetch_add(1, Ordering::Relaxed);
+        if self.hot {
+            let mut g = self.sh.wakers[self.id].lock().unwrap();
+            if g.is_none() {
+                *g = Some(cx.waker().clone());
+            }
+        }
+        Poll::Pending
+    }
+}
+
+fn hammer(seed: u64, ms: u64) -> Result<String, String> {
+    let mut s = seed ^ 0x5EED_4A11;
+    let r = &mut s;
+    let mut rounds = 0u64;
+    let mut total_polls = 0u64;
+    let mut total_wakes = 0u64;
+    let t_end = std::time::Instant::now() + std::time::Duration::from_millis(ms);
+    while std::time::Instant::now() < t_end {
+        rounds += 1;
+        let n = 4 + (splitmix(r) % 20) as usize;
+        let nhot = 1 + (splitmix(r) % 4) as usize;
+        let unbounded = splitmix(r) % 2 == 0;
+        let hot_ids: Vec<usize> = (0..nhot).map(|_| (splitmix(r) as usize) % n).collect();
+        let sh = Arc::new(HShared {
+            polls: (0..n).map(|_| AtomicU32::new(0)).collect(),
+            wakers: (0..n).map(|_| Mutex::new(None)).collect(),
+            stop: AtomicBool::new(false),
+            wakes: std::sync::atomic::AtomicU64::new(0),
+        });
+        let mk = |i: usize| HFut { id: i, hot: hot_ids.contains(&i), sh: sh.clone() };
+        enum C {
+            B(FuturesUnorderedBounded<HFut>),
+            U(FuturesUnordered<HFut>),
+        }
+        let mut c = if unbounded {
+            let mut q = FuturesUnordered::with_capacity(1 + (splitmix(r) % 3) as usize);
+            for i in 0..n {
+                q.push(mk(i));
+            }
+            C::U(q)
+        } else {
+            C::B((0..n).map(mk).collect())
+        };
+        let tw = Arc::new(TaskW { count: AtomicU32::new(0), thread: std::thread::current() });
+        let waker = Waker::from(tw.clone());
+        let slice_end = std::time::Instant::now() + std::time::Duration::from_millis(ms.min(150));
+        let polls = std::thread::scope(|scope| {
+            for &h in &hot_ids {
+                let sh = sh.clone();
+                scope.spawn(move || {
+                    let w = loop {
+                        if let Some(w) = sh.wakers[h].lock().unwrap().clone() {
+                            break w;
+                        }
+                        if sh.stop.load(Ordering::Relaxed) {
+                            return;
+                        }
+                        std::hint::spin_loop();
+                    };
+                    let mut k = 0u64;
+                    while !sh.stop.load(Ordering::Relaxed) {
+                        w.wake_by_ref();
+                        k += 1;
+                    }
+                    sh.wakes.fetch_add(k, Ordering::Relaxed);
+                });
+            }
+            let mut cx = Context::from_waker(&waker);
+            let mut polls = 0u64;
+            while std::time::Instant::now() < slice_end {
+                for _ in 0..64 {
+                    let _ = match &mut c {
+                        C::B(q) => Pin::new(q).poll_next(&mut cx),
+                        C::U(q) => Pin::new(q).poll_next(&mut cx),
+                    };
+                    polls += 1;
+                }
+                step(1);
+            }
+            sh.stop.store(true, Ordering::Relaxed);
+            polls
+        });
+        total_polls += polls;
+        total_wakes += sh.wakes.load(Ordering::Relaxed);
+        for i in 0..n {
+            let p = sh.polls[i].load(Ordering::Relaxed);
+            if !hot_ids.contains(&i) && p != 1 {
+                return Err(format!(
+                    "round {rounds}: child {i} of {n} was polled {p} times although its waker was never invoked (hot children {hot_ids:?}, unbounded={unbounded}, {polls} polls of the collection)"
+                ));
+            }
+        }
+        step(2);
+        drop(c);
+        for i in 0..n {
+            drop(sh.wakers[i].lock().unwrap().take());
+        }
+        step(0);
+    }
+    Ok(format!("E4-hammer ok: seed={seed} rounds={rounds} collection_polls={total_polls} off_thread_wake_invocations={total_wakes}"))
+}
+
 fn main() {
     let args: Vec<String> = std::env::args().collect();
     let mut seed = 1u64;
     let mut iters = 200u64;
     let mut maxc = 4usize;
     let mut hang_secs = 30u64;
+    let mut hammer_ms = 0u64;
     let mut i = 1;
     while i < args.len() {
         match args[i].as_str() {
@@ -527,6 +650,10 @@ fn main() {
             }
             "--hang-secs" => {
                 hang_secs = args[i + 1].parse().unwrap();
+                i += 1
+            }
+            "--hammer-ms" => {
+                hammer_ms = args[i + 1].parse().unwrap();
                 i += 1
             }
             "--max-children" => {
@@ -563,6 +690,18 @@ fn main() {
                 }
             }
         });
+    }
+    if hammer_ms > 0 {
+        match hammer(seed, hammer_ms) {
+            Ok(m) => {
+                println!("{m}");
+                return;
+            }
+            Err(e) => {
+                println!("E4-VIOLATION seed={seed} hammer :: {e}");
+                std::process::exit(1);
+            }
+        }
     }
     for it in 0..iters {
         CUR_ITER.store(it, Ordering::Relaxed);
